@@ -16,7 +16,7 @@
     roll|ndim|int, tuple:<k>, other|axes or n
     permute|ndim|axes
     mapblocks|numblocks lists|drop_axis|new_axis or n|len(chunks) or n
-    index|shape|i:<k>;s;S;a:<k,k>;b:<len>;N;e;o   (S = slice with negative step selecting at least two elements)
+    index|shape|i:<k>;s;a:<k,k>;b:<len>;N;e;o
     scan|nb
   key-function requests
     prkeys|nb|k|bi                         -> keys
@@ -52,8 +52,7 @@ def mkRegion (a b c d e f g : String) : RegionP :=
 def parseIx (s : String) : Ix :=
   match s.splitOn ":" with
   | ["i", k] => .int (int1 k)
-  | ["s"] => .slice false
-  | ["S"] => .slice true
+  | ["s"] => .slice
   | ["a", ks] => .intArray (parseInts ks)
   | ["a"] => .intArray []
   | ["b", k] => .boolArray ((parseNat? k).getD 0)
